@@ -7,3 +7,6 @@ open A2l.Tree
 #print axioms edit_local_insert
 #print axioms new_item_last
 #print axioms addGroup_chunks_comments
+#print axioms bumpItems_def
+#print axioms bumpOff_def
+#print axioms bumpItems_no_comments
